@@ -145,6 +145,20 @@ func runCsvCase(c *Ctx, cfg csvCfgT, eol string, rows [][]string, text string) {
 }
 
 func propC09(c *Ctx) {
+	// a tokenizer is an object of its own: another csv tokenizer whose states were customised (word characters disabled,
+	// symbols added, other separators and quotes) leaves every later one in the default configuration
+	safeCall(func() string {
+		other := csv.NewCsvTokenizer()
+		other.WordState().SetWordChars('#', '#', false)
+		other.WordState().SetWordChars('a', 'c', false)
+		other.SymbolState().Add("#", tokenizers.Symbol)
+		other.SymbolState().Add("\n\n", tokenizers.Eol)
+		other.WhitespaceState().SetWhitespaceChars('_', '_', true)
+		other.SetFieldSeparators([]rune{'|'})
+		other.SetQuoteSymbols([]rune{'%'})
+		other.TokenizeBuffer("a#b|%q%\n\nc")
+		return ""
+	})
 	propScaleCsv(c)
 	cfgs := []csvCfgT{
 		{[]rune{','}, []rune{'"'}},
@@ -170,7 +184,7 @@ func propC09(c *Ctx) {
 		nr := 1 + c.Rng.Intn(5)
 		nc := 1 + c.Rng.Intn(4)
 		rows := make([][]string, nr)
-		pool := []rune{'a', 'b', '1', ' ', 0xe9, 0xff, 0x100, 0x101, 0x416, 0x4e16, 0x201c, 0x2028, 0xfffe, 0xfeff, 0, '\r', '\n', ',', ';', '"', '\''}
+		pool := []rune{'a', 'b', '1', ' ', 0xe9, 0xff, 0x100, 0x101, 0x416, 0x4e16, 0x201c, 0x2028, 0xfffe, 0xfeff, 0, '\r', '\n', ',', ';', '"', '\'', '#', '%', '|', '_', 'c'}
 		pool = append(pool, cfg.seps...)
 		pool = append(pool, cfg.quotes...)
 		pool = append(pool, cfg.quotes...)
